@@ -1212,6 +1212,39 @@ func posfieldsStatic(args []string) error {
 			fmt.Printf("%s\t\"retained AST\"\t%s\n", status, before)
 		}
 	}
+	// a lexer that emits no tokens for white space (text/scanner): EndPos is the position of the next token of the stream (the
+	// EOF token's after the last one), Pos that of the node's first token - whatever line breaks lie between them
+	for _, in := range []string{"a (\n b\n\n  c )", "a\n", "a ( b\n)\n\n", "a (\n\tb (\n c\n )\n d )"} {
+		v, err := pp.ParseString("f", in)
+		toks, lerr := pp.Lex("f", strings.NewReader(in))
+		if err != nil || lerr != nil {
+			fmt.Printf("BAD\t%q\tparse / lex errors %v %v\n", in, err, lerr)
+			continue
+		}
+		at := map[int]int{}
+		for i, t := range toks {
+			at[t.Pos.Offset] = i
+		}
+		status, detail := "OK", ""
+		var walk func(n *nodePlain)
+		walk = func(n *nodePlain) {
+			if len(n.Tokens) == 0 {
+				status, detail = "BAD", "a node without tokens"
+				return
+			}
+			last := n.Tokens[len(n.Tokens)-1]
+			next := toks[at[last.Pos.Offset]+1]
+			if n.Pos != n.Tokens[0].Pos || n.EndPos != next.Pos {
+				status = "BAD"
+				detail += fmt.Sprintf("node %s: Pos %v (first token %v), EndPos %v (next token of the stream %v); ", n.Name, n.Pos, n.Tokens[0].Pos, n.EndPos, next.Pos)
+			}
+			for _, k := range n.Kids {
+				walk(k)
+			}
+		}
+		walk(v)
+		fmt.Printf("%s\t%q\ttext/scanner lexer, line breaks between tokens: %s\n", status, in, detail)
+	}
 	for _, in := range []string{"a", "a ( b c )", " a(b(c d) e ( f ) )  ", "x ( )"} {
 		var a, b, c []string
 		v1, e1 := pp.ParseString("", in)
